@@ -201,12 +201,16 @@ func (cfg *Config) Validate() error {
 // LoadJSON reads the fields of this Config from a JSON byteslice as
 // generated by ToJSON.
 func (cfg *Config) LoadJSON(raw []byte) error {
-	jcfg := &jsonConfig{}
+	cfg.Default()
+
+	// Parse on top of the default values, so that keys which are not
+	// present keep their defaults and can be told apart from keys
+	// explicitly set to "false".
+	jcfg := cfg.toJSONConfig()
 	err := json.Unmarshal(raw, jcfg)
 	if err != nil {
 		return err
 	}
-	cfg.Default()
 
 	return cfg.applyJSONConfig(jcfg)
 }
@@ -232,6 +236,13 @@ func (cfg *Config) applyJSONConfig(jcfg *jsonConfig) error {
 	if err := mergo.Merge(&cfg.BadgerOptions, badgerOpts, mergo.WithOverride); err != nil {
 		return err
 	}
+
+	// mergo does not override with zero values: a "false" would be
+	// silently replaced by a "true" default (sync_writes, truncate).
+	cfg.BadgerOptions.SyncWrites = jcfg.BadgerOptions.SyncWrites
+	cfg.BadgerOptions.CompactL0OnClose = jcfg.BadgerOptions.CompactL0OnClose
+	cfg.BadgerOptions.ReadOnly = jcfg.BadgerOptions.ReadOnly
+	cfg.BadgerOptions.Truncate = jcfg.BadgerOptions.Truncate
 
 	if jcfg.BadgerOptions.TableLoadingMode != nil {
 		cfg.BadgerOptions.TableLoadingMode = *jcfg.BadgerOptions.TableLoadingMode
